@@ -479,17 +479,17 @@ def r13_5(prog, rep):
 
 def run(prog, rep, tier, snap):
     rep.rule("R13.1", "the 20-row routing table of prep_task against the statement", 20)
-    r13_1(prog, rep)
+    rep.call(r13_1, prog, rep)
     rep.rule("R13.2", "privilege and set-up order; single spawn through the requested shell", 8)
-    r13_2(prog, rep)
+    rep.call(r13_2, prog, rep)
     rep.rule("R13.3", "journal lock pairing, status provenance, clean-up", 6)
-    r13_3(prog, rep)
+    rep.call(r13_3, prog, rep)
     rep.rule("R13.5", "tee offset into the shared mail file derives from the file's own position", 2)
-    r13_5(prog, rep)
+    rep.call(r13_5, prog, rep)
     from ..rules import watch
     rep.rule("R13.4", "child watchers whose callback means 'terminated' are registered for termination only", 1)
-    watch.child_watchers(prog, rep, "R13.4", "echsx.c")
+    rep.call(watch.child_watchers, prog, rep, "R13.4", "echsx.c")
     from ..rules import spawn
     rep.rule("R13.6", "a failed posix_spawn (positive error number) is not taken for a started process", 2)
-    spawn.spawn_results(prog, rep, "R13.6", "echsx.c", 2)
+    rep.call(spawn.spawn_results, prog, rep, "R13.6", "echsx.c", 2)
 READY = True
